@@ -510,29 +510,45 @@ class HostConnection(object):
         log.debug("Replacing connection (%s) to %s", id(connection), self.host)
         try:
             conn = self._session.cluster.connection_factory(self.host.endpoint, on_orphaned_stream_released=self.on_orphaned_stream_released)
+            published = False
             while True:
                 keyspace = self._keyspace
                 if keyspace:
                     conn.set_keyspace_blocking(keyspace)
                 with self._lock:
+                    if self.is_shutdown:
+                        break
                     # publish the connection only if the keyspace was not switched meanwhile
                     # (see _set_keyspace_for_all_conns); otherwise select the new one first
                     if self._keyspace == keyspace:
                         self._connection = conn
+                        published = True
                         break
+            if not published:
+                # the pool was shut down while the new connection was being opened
+                conn.close()
+                return
         except Exception:
             log.warning("Failed reconnecting %s. Retrying." % (self.host.endpoint,))
             self._session.submit(self._replace, connection)
         else:
+            close_old = False
             with connection.lock:
                 with self._lock:
                     if connection.orphaned_threshold_reached:
                         if connection.in_flight == len(connection.orphaned_request_ids):
                             connection.close()
+                        elif self.is_shutdown:
+                            # nobody looks at the trash after a shutdown; close the old
+                            # connection once the locks are released (the callbacks of
+                            # its pending requests come back to this pool)
+                            close_old = True
                         else:
                             self._trash.add(connection)
                     self._is_replacing = False
                     self._stream_available_condition.notify()
+            if close_old:
+                connection.close()
 
     def shutdown(self):
         with self._lock:
